@@ -422,6 +422,14 @@ impl Check for C19 {
             both.extend_from_slice(&b);
             emit(Case::with("laws", both, &[n0, r.next() as i64]));
         }
+        // documents WITH duplicate member names: reflexivity, clone and re-parse equality
+        let n = g.count(20_000, 1_000_000);
+        for _ in 0..n {
+            let mut o = DocOpts::random(&mut r);
+            o.dup_keys = true;
+            o.budget = o.budget.min(40);
+            emit(Case::new("reflexive-dup", doc::gen_doc(&mut r, &o)));
+        }
         if g.shard == 0 {
             // explicit duplicate-key probes (finding F8)
             emit(Case::with("dup-probe", vec![], &[0]));
@@ -461,6 +469,26 @@ impl Check for C19 {
                 }
                 ctx.sample(name);
             }
+            "reflexive-dup" => {
+                ctx.nontrivial();
+                let Ok(d) = recog::parse_document(&c.input) else { return };
+                if !d.full_ok() || d.flags.max_depth > 64 {
+                    return;
+                }
+                let Ok(v) = sonic_rs::from_slice::<Value>(&c.input) else { return };
+                let w: Value = sonic_rs::from_slice(&c.input).unwrap();
+                ctx.ops(3);
+                ctx.class(if d.flags.has_dup_keys { "laws:reflexive-with-duplicates" } else { "laws:reflexive" });
+                #[allow(clippy::eq_op)]
+                if !(v == v) {
+                    ctx.fail("eq-not-reflexive", format!("v == v is false for {:?}", crate::core::truncate(&String::from_utf8_lossy(&c.input), 200)));
+                } else if !(v == v.clone() && v.clone() == v) {
+                    ctx.fail("eq-clone-differs", format!("v == v.clone() is false for {:?}", crate::core::truncate(&String::from_utf8_lossy(&c.input), 200)));
+                } else if !(v == w && w == v) {
+                    ctx.fail("eq-reparse-differs", format!("two parses of the same text are not equal: {:?}", crate::core::truncate(&String::from_utf8_lossy(&c.input), 200)));
+                }
+                ctx.sample("reflexive-dup");
+            }
             "laws" => {
                 let n0 = (c.p(0) as usize).min(c.input.len());
                 ctx.nontrivial();
@@ -484,6 +512,6 @@ impl Check for C19 {
         if b != "native-rel" {
             return vec!["dyn:both-routes-ok", "typed:instance", "laws:pair"];
         }
-        vec!["dyn:both-routes-ok", "table:non-finite", "table:wide-128", "table:non-string-key", "typed:instance", "laws:pair", "laws:equal-pair", "laws:duplicate-key-probe"]
+        vec!["dyn:both-routes-ok", "table:non-finite", "table:wide-128", "table:non-string-key", "typed:instance", "laws:pair", "laws:equal-pair", "laws:duplicate-key-probe", "laws:reflexive-with-duplicates"]
     }
 }
